@@ -29,7 +29,8 @@ Entries == {[t |-> t, deps |-> ds] : t \in Targets, ds \in SeqsUpTo(Names, MaxDe
 Files   == SeqsUpTo(Entries, MaxEntries) \ {<<>>}
 
 Gaps == {" ", "   ", " \\\n  ", "\\\n "}
-Choices == [colon : {"", "  "}, gap : Gaps, blank : {"", "\n"}, final : {"\n", ""}]
+\* (a line of nothing but spaces is a blank line too; so is one after the last entry)
+Choices == [colon : {"", "  "}, gap : Gaps, blank : {"", "\n", "  \n"}, final : {"\n", "", "\n  \n", "  \n   "}]
 
 RECURSIVE Join(_, _)
 Join(ds, gap) == IF ds = <<>> THEN "" ELSE gap \o Head(ds) \o Join(Tail(ds), gap)
